@@ -266,6 +266,51 @@ def run(ctx):
             ctx.ok("C25.2", FD, "the number is parsed as u64", dec.relfile, ps[0].line)
         else:
             ctx.violate("C25.2", FD, "segment-parse-type", dec.relfile, dec.line, "the segment is parsed as %s" % [p.node.get("callee_generic") for p in ps])
+    # ---- the decoder turns a key down only for the three reasons the lemma allows ------------
+    # (no separator, no prefix, the right part is not a number): every way to a None result is decided by the result of
+    # the split, of strip_prefix, of parse, or by the 2-part guard.  An extra test on the pieces - however reasonable a
+    # "canonical form" check looks - can reject a key that wal_key produces (segment 0 under `no leading zero`)
+    from .core.cond import all_tests as _all_tests, call_site_of as _cso
+    none_sites = []
+    for site, st in dec.assigns():
+        rv = st["rv"]
+        if st["place"]["l"] == 0 and not st["place"]["p"] and rv["k"] == "agg" and rv.get("variant") == "None":
+            none_sites.append(site)
+    for c_ in dec.calls(re.compile(r"::from_residual$")):
+        if c_.node["dest"]["l"] == 0 and not c_.node["dest"]["p"]:
+            none_sites.append(c_)
+    n_none = 0
+    for site in none_sites:
+        n_none += 1
+        guards = []
+        for T in _all_tests(dec):
+            for e_ in [getattr(T, "true_edge", None), getattr(T, "false_edge", None)] + list(getattr(T, "variant_edges", {}).values()):
+                if e_ and dec.edge_guards(e_, site.bb):
+                    guards.append((T, e_))
+        inner = None
+        for T, e_ in guards:
+            if all(e2 == e_ or dec.edge_guards(e2, e_[0]) for _, e2 in guards):
+                inner = (T, e_)
+        why = None
+        if inner is not None:
+            T = inner[0]
+            if T.kind == "discr":
+                src_, _, _ = origins(dec, {"k": "copy", "place": T.place}, follow_all_calls=True)
+                calls_ = {strip_generics(o.what) for o in src_ if o.kind == "call"}
+                if any(re.search(r"str>?::(rsplit_once|rsplitn|strip_prefix|parse)$|::parse$|Iterator>?::next$|Result(::<[^>]*>)?::ok$", c2) for c2 in calls_) and not any(
+                        re.search(r"::(starts_with|ends_with|contains|is_empty|all|any|eq|ne|len|bytes|chars|trim\w*|is_ascii\w*)$", c2) for c2 in calls_):
+                    why = "result of the split / prefix removal / number parse"
+            elif T.kind == "cmp":
+                ea_, eb_ = show(strip_refs(expr(dec, T.a)), 6), show(strip_refs(expr(dec, T.b)), 6)
+                if (const_of(dec, T.b) == 2 or const_of(dec, T.a) == 2) and ("len(" in ea_ + eb_):
+                    why = "the split did not yield 2 parts"
+        if why:
+            ctx.ok("C25.2", FD, "a None result is decided by %s" % why, dec.relfile, site.line)
+        else:
+            ctx.violate("C25.2", FD, "decoder-rejects-on-extra-condition", dec.relfile, site.line,
+                        "parse_wal_key can answer None for a reason other than `no separator`, `no prefix` or `not a number`: a test on the pieces that wal_key's own output can "
+                        "fail (e.g. `no leading zero` rejects segment 0) makes the round trip partial")
+    ctx.floor("C25.2", "None results of the decoder", n_none, 2)
     # ---- agreement -------------------------------------------------------------------
     if P is not None and S is not None and Sd is not None and Pd is not None:
         if Sd == S and Pd == P:
